@@ -35,6 +35,21 @@ impl<'a> DeferredWriter<'a> {
         }
     }
 
+    /// Verification hook (off by default, `verif-hooks` feature): like
+    /// [`from_boxed_dyn_write`][Self::from_boxed_dyn_write] but with a caller chosen capacity of the
+    /// internal buffer, so that an external harness can reach the fill/flush/write-through paths
+    /// with small outputs.
+    #[cfg(feature = "verif-hooks")]
+    #[inline(never)]
+    pub fn verif_with_capacity(write: Box<dyn Write + 'a>, capacity: usize) -> Self {
+        DeferredWriter {
+            write,
+            buf: Vec::with_capacity(capacity),
+            io_error: None,
+            panicked: false,
+        }
+    }
+
     /// Flush the buffered data to the underlying [`Write`] instance, deferring IO errors.
     pub fn flush_defer_err(&mut self) {
         // Silently discard data if we errored before but haven't reported it yet
